@@ -28,6 +28,7 @@ def run(ctx, env):
     ctx.rule("R11.1", "every dispatcher call in parse_bytes has receiver = reborrow of `self`; no parser is constructed, cloned or defaulted on the parse path")
     ctx.rule("R11.2", "the returned vector is a local that is only appended to (push/extend), each pushed packet being Ok(dispatch of this iteration).result; no reordering / removing operation touches it")
     ctx.rule("R11.3", "no per-call state: loop-carried user locals are only the input cursor (&[u8]), the owned remainder (Vec<u8>) and the result vector; `self` is written only at the cache write sites of C06")
+    ctx.rule("R11.5", "self-delimiting packets cannot read beyond their announced end: IPFIX sets only see the take(length-16) slice (length constant = header size; call-graph dominator), V5/V7 consume header + count(record)")
     ctx.rule("R11.4", "split point = the version parser's own remainder; continue iff it is non-empty (C02 R2.4 / R2.5 re-evaluated)")
     body = prog.body("NetflowParser::parse_bytes")
     if not ctx.anchor("R11.1", "NetflowParser::parse_bytes", body):
@@ -122,7 +123,38 @@ def run(ctx, env):
         for blk, i, s in b.stmts():
             if s["k"] == "assign" and s["place"]["l"] == 1 and s["place"].get("p"):
                 ctx.ob("R11.3", p, "writes-self", False, "assignment through self at %s" % site(s["span"]), site=site(s["span"]))
+    from .cache import extra_state_writes
+    for (adt, fld), info in sorted(extra_state_writes(prog, parse_bodies).items()):
+        ctx.ob("R11.3", adt, "extra-state:%s" % fld, not info["writes"],
+               "parser field %s.%s is written on the parse path at %s: state that survives between packets/calls besides the template maps" % (adt.rsplit("::", 1)[-1], fld, info["writes"][:3])
+               if info["writes"] else "field never written on the parse path")
     ctx.ob("R11.3", "parse-path", "self-written-only-by-cache-sites", not ca.violations, "%d cache write sites (insert/extend/remove), no other mutation path" % len(ca.writes))
+    # R11.5: a self-delimiting packet cannot read beyond its own announced end
+    from .layout import rule_body_lengths
+    saved5 = ctx.obls
+    ctx.obls = []
+    rule_body_lengths(ctx, prog, an, "R11.5")
+    sub5 = ctx.obls
+    ctx.obls = saved5
+    for o in sub5:
+        if "ipfix" in o["func"] or o["detail"].startswith("floor"):
+            ctx.ob("R11.5", o["func"], o["detail"], o["status"] == "discharged", o["reason"], o["site"])
+    def is_take_mapres(nd):
+        return nd["path"].startswith("nom::combinator::map_res") and "{closure#" in nd["path"] and any("nom::bytes::complete::take" in a for a in nd["args"])
+    for tp in ("variable_versions::ipfix::FlowSet::parse_be", "variable_versions::ipfix::FlowSetBody::parse"):
+        present = [nd for nd in prog.nodes if nd["path"] == tp]
+        if ctx.anchor("R11.5", tp, present):
+            bad = prog.node_dominated_by(PARSE_ROOTS[0], lambda nd: nd["path"] == tp, is_take_mapres)
+            ctx.ob("R11.5", tp, "sees-only-its-message", not bad,
+                   "IPFIX set parsing is reachable without the take(length-16) slice: a set may read bytes of the following packet, so chaining changes the result" if bad else "every path passes map_res(take(length − header), ..): sets see only their own message")
+    from . import c03 as _c03
+    from .layout import Layouts as _Layouts
+    _lay = _Layouts(prog, an)
+    for ver, S in sorted(_c03.STRUCTS.items()):
+        top = _c03.parse_be_path(S["top"])
+        Lt = _lay.parser_layout(top)
+        okc = Lt["ok"] and len(Lt["steps"]) == 2 and Lt["steps"][1]["term"][0] == "count"
+        ctx.ob("R11.5", top, "fixed-size-by-count", bool(okc), "V%d consumes header + count(record, header.count): its end is determined by its own header" % ver)
     # R11.4
     saved = ctx.obls
     ctx.obls = []
